@@ -692,7 +692,7 @@ def run(prog: Program, rep: Report, tier: str):
         fb = C.fallback_routine(prog, d)
         rep.check(total and fb is not None, "R15.2", f.qualname, f.loc, "dispatch is total: every path returns a routine, ending in an unconditional fallback", "dispatch is not total: a path falls off or raises", detail="total")
     nt = prog.function(f"{C.INSP}.normalize_typevar")
-    rets = [r for _, r in P.returns(P.paths_of(prog, nt))]
+    rets = [r for _, r in P.returns(P.spaths(prog, nt))]
     tv = ("param", nt.params[0])
     has_bound = ("attr", tv, "__bound__") in rets
     has_any = ("ref", "typing.Any") in rets
@@ -701,7 +701,7 @@ def run(prog: Program, rep: Report, tier: str):
     # a further attribute of the TypeVar handed out as its normal form must be told apart from "nothing declared" by the
     # sentinel the typing modules use: `typing_extensions.TypeVar("T").__default__` is `NoDefault` (an object that is neither
     # None nor false), and `default=None` is a declared default -- `is not None` / truthiness decide neither
-    for pth, r in P.returns(P.paths_of(prog, nt)):
+    for pth, r in P.returns(P.spaths(prog, nt)):
         reads = [s_ for s_ in T.walk(r) if (s_[0] == "attr" and s_[1] == tv and s_[2] not in ("__bound__", "__constraints__")) or (T.is_call_to(s_, "builtins.getattr") and s_[2][:1] == (tv,) and len(s_[2]) > 1 and s_[2][1][0] == "const" and s_[2][1][1] not in ("__bound__", "__constraints__"))]
         if not reads:
             continue
